@@ -269,11 +269,14 @@ def plan(prop, tier, seed):
     if prop == "C16":
         legs.append(lambda: recipe_leg("RecipeLife", 5 if q else 6, 16, REALISTIC, seed))
         legs.append(lambda: trace_leg())
-    if prop in ("C08", "C09", "C15", "C16", "C17", "C04", "C03", "C19"):
+    if prop in ("C08", "C09", "C15", "C16", "C17", "C04", "C03", "C19", "C07"):
         legs.append(lambda: recipe_leg("RecipeProg", 3 if q else 4, 16, REALISTIC, seed))
         if not q:
             legs.append(lambda: recipe_leg("RecipeProg", 3, 16, DECIMAL, seed, tag="dec"))
             legs.append(lambda: recipe_leg("RecipeCore", 9, 16, REALISTIC, seed, sim=(40, 9, seed * 100 + 1), tag="sim"))
+    if prop in ("C09", "C15", "C16"):
+        # programs continued after a refused bake (declared but unused): the refusal changed nothing, stages included
+        legs.append(lambda: recipe_leg("RecipeStageQ", 6, 6, REALISTIC, seed) if q else recipe_leg("RecipeStage", 6, 8, REALISTIC, seed))
     if prop == "C18":
         import configs
         names = ["mL_mmol", "L_mol", "nL_nmol", "L_mol_dens2", "mL_umol_p8"] if q else \
@@ -303,6 +306,9 @@ def plan(prop, tier, seed):
             legs.append(lambda: units_leg(DECIMAL, seed + 1))
             legs.append(lambda: units_leg(("777.7", "31000"), seed + 2))
     if prop == "C13":
+        legs.append(lambda: slicer_leg(SLICER_QUICK if q else SLICER_THOROUGH))
+    if prop == "C07":
+        # every labelling and geometry: a transfer into each selection of the Slicer enumeration changes exactly the denoted wells
         legs.append(lambda: slicer_leg(SLICER_QUICK if q else SLICER_THOROUGH))
     return legs
 
